@@ -176,18 +176,16 @@ def eval_sutton(case):
 
 
 def eval_purity(case):
-    from bluebonnet.fluids import build_pvt_gas, gas  # noqa: PLC0415
+    from bluebonnet.fluids import gas  # noqa: PLC0415
 
     calls = []
     for c in case["comps"]:
         for dry in ("dry gas", "wet gas"):
-            calls.append(("build_pvt_gas[z]", lambda v, d, m: np.asarray(build_pvt_gas(dict(v), d, maximum_pressure=m)["z-factor"]),
-                          (gas_values(c), dry, 300.0)))
-            calls.append(("build_pvt_gas[m]", lambda v, d, m: np.asarray(build_pvt_gas(dict(v), d, maximum_pressure=m)["pseudopressure"]),
-                          (gas_values(c), dry, 300.0)))
+            calls.append(("build_pvt_gas[z]", "bluebonnet.fluids.fluid:build_pvt_gas", (gas_values(c), dry, 300.0), "z-factor"))
+            calls.append(("build_pvt_gas[m]", "bluebonnet.fluids.fluid:build_pvt_gas", (gas_values(c), dry, 300.0), "pseudopressure"))
             nh = gas.make_nonhydrocarbon_properties(*c["cont"])
-            calls.append(("pseudocritical_point_Sutton", gas.pseudocritical_point_Sutton, (c["g"], nh, dry)))
-    viol = purity_violations([(l, f, a) for l, f, a in calls])
+            calls.append(("pseudocritical_point_Sutton", "bluebonnet.fluids.gas:pseudocritical_point_Sutton", (c["g"], nh, dry)))
+    viol = purity_violations(calls)
     for v in viol:
         v["case"] = dict(case, call=str(v["case"]["call"]))
     return {"violations": viol[:3], "evals": len(calls) * 3, "outcome": "purity"}
